@@ -13,6 +13,16 @@ import Ark.Model.Proto
   operands only (`note:noncanonical-input` otherwise — model = impl is still compared); the two
   constructors are judged on arbitrary input vectors.
 -/
+/-
+  Additions: the `impl_op!` receiver variants (`daddvr` = owned ⊕ &ref, `daddrv` = &ref ⊕ owned, `d…v` =
+  owned ⊕ owned, for add/sub/mul/div); `DenseOrSparsePolynomial` built from the four `From` impls
+  (kind `do`/`db` = dense owned/borrowed Cow, `so`/`sb` = sparse): `dosz`, `dosdeg`, `dos2d`
+  (`Into<DensePolynomial>`), `dos2s` (`TryInto<SparsePolynomial>`, `err` for the dense variant),
+  `dosevaldom`; division with owned Cows (`ddivo`, `dsdivo`, `sddivo`, `ssdivo`); `drand <d> <seed>`
+  (`DenseUVPolynomial::rand`, verdict only); `sevalx` / `sevaldomx` (sparse evaluation with exponents up to
+  `usize::MAX`; spec by fast exponentiation); `dser` / `sser` (derived `CanonicalSerialize` / `CanonicalDeserialize`
+  of `DensePolynomial` / `SparsePolynomial`: `<bytes> <serialized_size> <round trip>`).
+-/
 namespace Ark.DrvC08
 open Ark Ark.Proto Ark.Poly
 
@@ -118,6 +128,20 @@ def vs (impl spec : String) : String := if impl == spec then "ok" else "bad:want
 def pre (ok : Bool) (v : String) : String := if ok then v else "note:noncanonical-input"
 end spec
 
+/-! ### byte encodings: `Vec<T>` = `u64` length (LE) then the elements; field elements in `⌈bits(p)/8⌉` bytes LE -/
+def leBytes (n w : Nat) : List Nat := (List.range w).map (fun i => (n >>> (8 * i)) % 256)
+def fromLE (bs : List Nat) : Nat := bs.foldr (fun b acc => b + 256 * acc) 0
+def bytesHex (bs : List Nat) : String :=
+  if bs.isEmpty then "_" else String.ofList (bs.flatMap (fun b => [hexChar (b / 16), hexChar (b % 16)]))
+def parseBytesAux : List Char → Option (List Nat)
+  | [] => some []
+  | [_] => none
+  | a :: b :: r => do
+    let x ← hexDigit? a; let y ← hexDigit? b; let t ← parseBytesAux r
+    pure ((16 * x + y) :: t)
+def parseBytes? (s : String) : Option (List Nat) := if s == "_" then some [] else parseBytesAux s.toList
+def feWidth (p : Nat) : Nat := (p.log2 + 1 + 7) / 8
+
 /-- two-adicity of `p − 1` -/
 def twoAdicityAux : Nat → Nat → Nat
   | 0, _ => 0
@@ -166,7 +190,7 @@ def runP (p : Nat) (op : String) (args : List String) (impl : String) : Option (
     let a ← pD p a; let fa := cD a.toArray; let b ← pD p b; let fb := cD b.toArray
     some (withTag (oD (addDD a b)) (tag2 (Poly.isZero a) (Poly.isZero b) a.length b.length),
       pre (canonD a && canonD b) (judgeD impl (max a.length b.length) (fun i => fa i + fb i)))
-  | "daddv", [a, b] => do
+  | "daddv", [a, b] | "daddvr", [a, b] | "daddrv", [a, b] => do
     let a ← pD p a; let fa := cD a.toArray; let b ← pD p b; let fb := cD b.toArray
     some (oD (addDD a b),
       pre (canonD a && canonD b) (judgeD impl (max a.length b.length) (fun i => fa i + fb i)))
@@ -182,7 +206,7 @@ def runP (p : Nat) (op : String) (args : List String) (impl : String) : Option (
     let a ← pD p a; let fa := cD a.toArray; let b ← pD p b; let fb := cD b.toArray
     some (withTag (oD (subDD a b)) (tag2 (Poly.isZero a) (Poly.isZero b) a.length b.length),
       pre (canonD a && canonD b) (judgeD impl (max a.length b.length) (fun i => fa i - fb i)))
-  | "dsubv", [a, b] => do
+  | "dsubv", [a, b] | "dsubvr", [a, b] | "dsubrv", [a, b] => do
     let a ← pD p a; let fa := cD a.toArray; let b ← pD p b; let fb := cD b.toArray
     some (oD (subDD a b),
       pre (canonD a && canonD b) (judgeD impl (max a.length b.length) (fun i => fa i - fb i)))
@@ -204,7 +228,7 @@ def runP (p : Nat) (op : String) (args : List String) (impl : String) : Option (
     let a ← pD p a; let fa := cD a.toArray; let b ← pD p b; let fb := cD b.toArray
     some (withTag (oD (naiveMul a b)) (tag2 (Poly.isZero a) (Poly.isZero b) a.length b.length),
       pre (canonD a && canonD b) (judgeD impl (a.length + b.length) (conv fa fb)))
-  | "dmul", [a, b] => do
+  | "dmul", [a, b] | "dmulv", [a, b] | "dmulvr", [a, b] | "dmulrv", [a, b] => do
     let a ← pD p a; let fa := cD a.toArray; let b ← pD p b; let fb := cD b.toArray
     let noDom := !(Poly.isZero a || Poly.isZero b) && !domainExists ta (a.length + b.length - 1)
     some (withTag (oD (mulDD ta a b)) (if noDom then "nodomain" else tag2 (Poly.isZero a) (Poly.isZero b) a.length b.length),
@@ -212,14 +236,14 @@ def runP (p : Nat) (op : String) (args : List String) (impl : String) : Option (
         (if noDom && impl == "panic" then "note:field-has-no-domain-of-that-size"
          else judgeD impl (a.length + b.length) (conv fa fb)))
   /- ---------- division ---------- -/
-  | "ddiv", [a, b] => do
+  | "ddiv", [a, b] | "ddivo", [a, b] => do
     let a ← pD p a; let fa := cD a.toArray; let b ← pD p b; let fb := cD b.toArray
     let tg := if Poly.isZero a then "za" else if Poly.isZero b then "zb" else if a.length < b.length then "lt" else "loop"
     some (withTag (oQR (divideWithQAndR (.d a) (.d b))) tg,
       pre (canonD a && canonD b)
         (if allZero b.length fb then (if impl == "panic" || Poly.isZero a then "note:division-by-zero" else "bad:division-by-zero-returned")
          else judgeQR impl a.length fa b.length fb))
-  | "ddivq", [a, b] => do
+  | "ddivq", [a, b] | "ddivv", [a, b] | "ddivvr", [a, b] | "ddivrv", [a, b] => do
     let a ← pD p a; let fa := cD a.toArray; let b ← pD p b; let fb := cD b.toArray
     -- `&a / &b`: only the quotient is returned; the remainder `a − q·b` must have degree < deg b
     let v :=
@@ -236,21 +260,21 @@ def runP (p : Nat) (op : String) (args : List String) (impl : String) : Option (
             | some db, some dr => if dr < db then "ok" else "bad:deg(a-q*b)>=deg-b"
             | _, _ => "ok"
     some (oD (divDD a b), pre (canonD a && canonD b) v)
-  | "dsdiv", [a, s] => do
+  | "dsdiv", [a, s] | "dsdivo", [a, s] => do
     let a ← pD p a; let fa := cD a.toArray; let s ← pS p s
     let tg := if Poly.isZero a then "za" else if sIsZero s then "zb" else "nz"
     some (withTag (oQR (divideWithQAndR (.d a) (.s s))) tg,
       pre (canonD a && canonS s)
         (if sIsZero s then (if impl == "panic" || Poly.isZero a then "note:division-by-zero" else "bad:division-by-zero-returned")
          else judgeQR impl a.length fa (boundS s) (cS s)))
-  | "sddiv", [s, b] => do
+  | "sddiv", [s, b] | "sddivo", [s, b] => do
     let s ← pS p s; let b ← pD p b; let fb := cD b.toArray
     let tg := if sIsZero s then "za" else if Poly.isZero b then "zb" else "nz"
     some (withTag (oQR (divideWithQAndR (.s s) (.d b))) tg,
       pre (canonS s && canonD b)
         (if Poly.isZero b then (if impl == "panic" || sIsZero s then "note:division-by-zero" else "bad:division-by-zero-returned")
          else judgeQR impl (boundS s) (cS s) b.length fb))
-  | "ssdiv", [s, t] => do
+  | "ssdiv", [s, t] | "ssdivo", [s, t] => do
     let s ← pS p s; let t ← pS p t
     let tg := if sIsZero s then "za" else if sIsZero t then "zb" else "nz"
     some (withTag (oQR (divideWithQAndR (.s s) (.s t))) tg,
@@ -382,6 +406,115 @@ def runP (p : Nat) (op : String) (args : List String) (impl : String) : Option (
           else if (specElements D).map (evalFn r.length (cD r.toArray)) == (specElements D).map (evalFn a.length fa) then "ok"
           else "bad:values-differ"
     some (m, pre (canonD a) v)
+  /- ---------- DenseOrSparsePolynomial: conversions and queries ---------- -/
+  | "dosz", [kind, a] => do
+    if kind == "do" || kind == "db" then
+      let a ← pD p a; let fa := cD a.toArray
+      some (boolStr (DoS.isZero (.d a)), vs impl (boolStr (allZero a.length fa)))
+    else
+      let s ← pS p a
+      some (boolStr (DoS.isZero (.s s)), pre (canonS s) (vs impl (boolStr (allZero (boundS s) (cS s)))))
+  | "dosdeg", [kind, a] => do
+    if kind == "do" || kind == "db" then
+      let a ← pD p a
+      let m := match DoS.degree (.d a) with | .ok d => hex d | .panic => "panic"
+      some (m, pre (canonD a) (vs impl (hex (a.length - 1))))
+    else
+      let s ← pS p a
+      let m := match DoS.degree (.s s) with | .ok d => hex d | .panic => "panic"
+      some (m, pre (canonS s) (vs impl (hex (boundS s - 1))))
+  | "dos2d", [kind, a] => do
+    if kind == "do" || kind == "db" then
+      let a ← pD p a; let fa := cD a.toArray
+      some (oD (DoS.toDense (.d a)), pre (canonD a) (judgeD impl a.length fa))
+    else
+      let s ← pS p a
+      some (oD (DoS.toDense (.s s)), pre (canonS s) (judgeD impl (boundS s) (cS s)))
+  | "dos2s", [kind, a] => do
+    if kind == "do" || kind == "db" then
+      let a ← pD p a
+      -- the conversion refuses the dense variant
+      some ((match DoS.tryIntoSparse (.d a) with | some t => shS t | none => "err"), vs impl "err")
+    else
+      let s ← pS p a
+      some ((match DoS.tryIntoSparse (.s s) with | some t => shS t | none => "err"),
+        pre (canonS s) (judgeS impl (boundS s) (cS s)))
+  | "dosevaldom", [kind, a, n, g, h] => do
+    let D ← pDom p n g h
+    if kind == "do" || kind == "db" then
+      let a ← pD p a; let fa := cD a.toArray
+      let m := if kind == "do" then evaluateOverDomainOwned D a else evaluateOverDomainRef D a
+      some (withTag (oD m) (kind ++ (if a.length > D.size then "-fold" else "-fit")),
+        pre (canonD a) (vs impl (shD ((specElements D).map (evalFn a.length fa)))))
+    else
+      let s ← pS p a
+      some (withTag (oD (sEvaluateOverDomain D s)) kind,
+        pre (canonS s) (vs impl (shD ((specElements D).map (evalFn (boundS s) (cS s))))))
+  /- ---------- derived serialization ---------- -/
+  | "dser", [a] => do
+    let a ← pD p a
+    let fw := feWidth p
+    let bytes := leBytes a.length 8 ++ a.flatMap (fun x => leBytes x.val fw)
+    let m := bytesHex bytes ++ " " ++ hex bytes.length ++ " " ++ shD a
+    let v := match impl.splitOn " " with
+      | [bs, sz, back] =>
+        (match parseBytes? bs, parseHex? sz with
+         | some bl, some sz =>
+           if sz != bl.length then "bad:serialized_size"
+           else if fromLE (bl.take 8) != a.length || bl.length != 8 + a.length * fw then "bad:length"
+           else if (List.range a.length).map (fun i => fromLE ((bl.drop (8 + i * fw)).take fw)) != a.map (·.val) then "bad:elements"
+           else if back != shD a then "bad:round-trip"
+           else if canonD a then "ok" else "note:deserialization-keeps-noncanonical-form"
+         | _, _ => "bad:format")
+      | _ => "bad:format"
+    some (m, v)
+  | "sser", [s] => do
+    let s ← pS p s
+    let fw := feWidth p
+    let bytes := leBytes s.length 8 ++ s.flatMap (fun t => leBytes t.1 8 ++ leBytes t.2.val fw)
+    let m := bytesHex bytes ++ " " ++ hex bytes.length ++ " " ++ shS s
+    let v := match impl.splitOn " " with
+      | [bs, sz, back] =>
+        (match parseBytes? bs, parseHex? sz with
+         | some bl, some sz =>
+           if sz != bl.length then "bad:serialized_size"
+           else if fromLE (bl.take 8) != s.length || bl.length != 8 + s.length * (8 + fw) then "bad:length"
+           else if (List.range s.length).map (fun i =>
+               let t := (bl.drop (8 + i * (8 + fw))).take (8 + fw)
+               (fromLE (t.take 8), fromLE (t.drop 8))) != s.map (fun t => (t.1, t.2.val)) then "bad:terms"
+           else if back != shS s then "bad:round-trip"
+           else if canonS s then "ok" else "note:deserialization-keeps-noncanonical-form"
+         | _, _ => "bad:format")
+      | _ => "bad:format"
+    some (m, v)
+  /- ---------- DenseUVPolynomial::rand (verdict only) ---------- -/
+  | "drand", [d, _seed] => do
+    let d ← parseHex? d
+    -- `<coeffs> <degree()>`: exactly d+1 canonical residues, the last one non-zero, degree d
+    let v := match impl.splitOn " " with
+      | [cs, dg] =>
+        (match (if cs == "_" then some [] else mapM? parseHex? (cs.splitOn ",")), parseHex? dg with
+         | some l, some dg =>
+           if l.length != d + 1 then "bad:len"
+           else if l.any (· ≥ p) then "bad:noncanonical-residue"
+           else if l.getLast? == some 0 then "bad:leading-zero"
+           else if dg != d then "bad:degree"
+           else "ok"
+         | _, _ => "bad:unparseable")
+      | _ => if impl == "panic" then "bad:panic" else "bad:unparseable"
+    some ("any", v)
+  /- ---------- sparse evaluation with huge exponents ---------- -/
+  | "sevalx", [s, x] => do
+    let s ← pS p s; let x ← pEl p x
+    let m := match sEvaluate s x with
+      | .ok v => shEl v
+      | .panic => "panic"
+    let w : Fp p := s.foldl (fun acc t => acc + t.2 * Fp.pow x t.1) 0
+    some (m, pre (canonS s) (vs impl (shEl w)))
+  | "sevaldomx", [s, n, g, h] => do
+    let s ← pS p s; let D ← pDom p n g h
+    let w := (specElements D).map (fun e => s.foldl (fun (acc : Fp p) t => acc + t.2 * Fp.pow e t.1) 0)
+    some (oD (sEvaluateOverDomain D s), pre (canonS s) (vs impl (shD w)))
   | _, _ => none
 
 def run (op : String) (args : List String) (impl : String) : Option (String × String) :=
